@@ -100,6 +100,7 @@ pub fn union_reinterpret(a: Bits, size_b: usize) -> (b: Bits)
         };
         PanicOr::Ret(__r)
     }
+    proof fn reach_as_slice<N: ArrayLength>(self_: Sl) requires self_.stride == N::n(), self_.len == 1, self_.valid(), { assert(false); } /*OB:canary.as_slice:*/
 
     // extracted from src/lib.rs:455  `fn as_mut_slice(&mut self) -> &mut [T]`
     pub fn as_mut_slice<N: ArrayLength>(self_: Sl) -> (ret: PanicOr<Sl>)
@@ -119,6 +120,7 @@ pub fn union_reinterpret(a: Bits, size_b: usize) -> (b: Bits)
         };
         PanicOr::Ret(__r)
     }
+    proof fn reach_as_mut_slice<N: ArrayLength>(self_: Sl) requires self_.stride == N::n(), self_.len == 1, self_.valid(), { assert(false); } /*OB:canary.as_mut_slice:*/
 
     // extracted from src/lib.rs:459  `fn from_slice(slice: &[T]) -> &GenericArray<T, N>`
     pub fn from_slice<N: ArrayLength>(slice: Sl) -> (ret: PanicOr<Sl>)
@@ -139,6 +141,7 @@ pub fn union_reinterpret(a: Bits, size_b: usize) -> (b: Bits)
         };
         PanicOr::Ret(__r)
     }
+    proof fn reach_from_slice<N: ArrayLength>(slice: Sl) requires slice.stride == 1, slice.valid(), { assert(false); } /*OB:canary.from_slice:*/
 
     // extracted from src/lib.rs:475  `fn from_mut_slice(slice: &mut [T]) -> &mut GenericArray<T, N>`
     pub fn from_mut_slice<N: ArrayLength>(slice: Sl) -> (ret: PanicOr<Sl>)
@@ -159,6 +162,7 @@ pub fn union_reinterpret(a: Bits, size_b: usize) -> (b: Bits)
         };
         PanicOr::Ret(__r)
     }
+    proof fn reach_from_mut_slice<N: ArrayLength>(slice: Sl) requires slice.stride == 1, slice.valid(), { assert(false); } /*OB:canary.from_mut_slice:*/
 
     // extracted from src/lib.rs:467  `fn try_from_slice(slice: &[T]) -> Result<&GenericArray<T, N>, LengthError>`
     pub fn try_from_slice<N: ArrayLength>(slice: Sl) -> (ret: PanicOr<Result<Sl, LengthError>>)
@@ -178,6 +182,7 @@ pub fn union_reinterpret(a: Bits, size_b: usize) -> (b: Bits)
         };
         PanicOr::Ret(__r)
     }
+    proof fn reach_try_from_slice<N: ArrayLength>(slice: Sl) requires slice.stride == 1, slice.valid(), { assert(false); } /*OB:canary.try_from_slice:*/
 
     // extracted from src/lib.rs:484  `fn try_from_mut_slice( slice: &mut [T], ) -> Result<&mut GenericArray<T, N>, LengthError>`
     pub fn try_from_mut_slice<N: ArrayLength>(slice: Sl) -> (ret: PanicOr<Result<Sl, LengthError>>)
@@ -196,6 +201,7 @@ pub fn union_reinterpret(a: Bits, size_b: usize) -> (b: Bits)
         };
         PanicOr::Ret(__r)
     }
+    proof fn reach_try_from_mut_slice<N: ArrayLength>(slice: Sl) requires slice.stride == 1, slice.valid(), { assert(false); } /*OB:canary.try_from_mut_slice:*/
 
     // extracted from src/lib.rs:500  `fn chunks_from_slice(slice: &[T]) -> (&[GenericArray<T, N>], &[T])`
     pub fn chunks_from_slice<N: ArrayLength>(slice: Sl) -> (ret: PanicOr<(Sl, Sl)>)
@@ -226,6 +232,7 @@ pub fn union_reinterpret(a: Bits, size_b: usize) -> (b: Bits)
         };
         PanicOr::Ret(__r)
     }
+    proof fn reach_chunks_from_slice<N: ArrayLength>(slice: Sl) requires slice.stride == 1, slice.valid(), { assert(false); } /*OB:canary.chunks_from_slice:*/
 
     // extracted from src/lib.rs:526  `fn chunks_from_slice_mut(slice: &mut [T]) -> (&mut [GenericArray<T, N>], &mut [T])`
     pub fn chunks_from_slice_mut<N: ArrayLength>(slice: Sl) -> (ret: PanicOr<(Sl, Sl)>)
@@ -256,6 +263,7 @@ pub fn union_reinterpret(a: Bits, size_b: usize) -> (b: Bits)
         };
         PanicOr::Ret(__r)
     }
+    proof fn reach_chunks_from_slice_mut<N: ArrayLength>(slice: Sl) requires slice.stride == 1, slice.valid(), { assert(false); } /*OB:canary.chunks_from_slice_mut:*/
 
     // extracted from src/lib.rs:548  `fn slice_from_chunks(slice: &[GenericArray<T, N>]) -> &[T]`
     pub fn slice_from_chunks<N: ArrayLength>(slice: Sl) -> (ret: PanicOr<Sl>)
@@ -273,6 +281,7 @@ pub fn union_reinterpret(a: Bits, size_b: usize) -> (b: Bits)
         };
         PanicOr::Ret(__r)
     }
+    proof fn reach_slice_from_chunks<N: ArrayLength>(slice: Sl) requires slice.stride == N::n(), slice.valid(), { assert(false); } /*OB:canary.slice_from_chunks:*/
 
     // extracted from src/lib.rs:552  `fn slice_from_chunks_mut(slice: &mut [GenericArray<T, N>]) -> &mut [T]`
     pub fn slice_from_chunks_mut<N: ArrayLength>(slice: Sl) -> (ret: PanicOr<Sl>)
@@ -290,6 +299,7 @@ pub fn union_reinterpret(a: Bits, size_b: usize) -> (b: Bits)
         };
         PanicOr::Ret(__r)
     }
+    proof fn reach_slice_from_chunks_mut<N: ArrayLength>(slice: Sl) requires slice.stride == N::n(), slice.valid(), { assert(false); } /*OB:canary.slice_from_chunks_mut:*/
 
     // extracted from src/lib.rs:676  `pub const unsafe fn const_transmute<A, B>(a: A) -> B`
     pub fn const_transmute(a: Bits, size_b: usize) -> (ret: PanicOr<Bits>)
